@@ -181,3 +181,56 @@ func vStubCreateSpliceInsertPayload(p scte35.SpliceInsertParams) []byte {
 	vLastParams = p
 	return nil
 }
+
+// ---- stpp segments: the TTML timestamps inside the sample move by the same offset as the decode time ----
+
+func init() {
+	vHarnesses["vH_C01_stpp_shift"] = vH_C01_stpp_shift
+}
+
+var vLastShiftMS uint64
+
+func vStubShiftTTML(data []byte, timeShiftMS uint64) ([]byte, error) {
+	vLastShiftMS = timeShiftMS
+	return data, nil
+}
+
+func vStubGetFullSamplesStpp(f *mp4.Fragment, trex *mp4.TrexBox) ([]mp4.FullSample, error) {
+	return []mp4.FullSample{{Data: []byte{0}}}, nil
+}
+
+// box skeleton of a one-sample stpp fragment (what shiftStppTimes touches)
+func vStubMkStppSegment(tfdt uint64) *mp4.MediaSegment {
+	t := &mp4.TfdtBox{}
+	t.SetBaseMediaDecodeTime(tfdt)
+	trun := &mp4.TrunBox{Samples: []mp4.Sample{{}}}
+	tfhd := &mp4.TfhdBox{}
+	traf := &mp4.TrafBox{Tfhd: tfhd, Tfdt: t, Trun: trun, Children: []mp4.Box{tfhd, t, trun}}
+	moof := &mp4.MoofBox{Mfhd: &mp4.MfhdBox{SequenceNumber: 1}, Traf: traf}
+	return &mp4.MediaSegment{Fragments: []*mp4.Fragment{{Moof: moof, Mdat: &mp4.MdatBox{}}}}
+}
+
+func vStubStppShiftMSOf(seg *mp4.MediaSegment) int { return int(vLastShiftMS) }
+
+func vH_C01_stpp_shift() {
+	// media timescales in use for stpp (1000) and for tracks that share the video clock
+	tsTable := [5]int{1000, 10000, 30000, 48000, 90000}
+	ts := tsTable[vConc(vInt("tsIdx", 0, 4))]
+	// the segment moves by a whole number of milliseconds (loop duration times wraps), at most ~35 years
+	shiftMS := vInt("shiftMS", 0, 1<<40)
+	vAssume((shiftMS*ts)%1000 == 0)
+	shift := shiftMS * ts / 1000
+	tfdt := vInt("tfdt", 0, 1<<20)
+	nr := vInt("nr", 0, 1<<31)
+	seg := vMkStppSegment(uint64(tfdt))
+	err := shiftStppTimes(seg, uint32(ts), uint64(shift), uint32(nr))
+	vAssert("C01.stpp.ok", err == nil)
+	if err != nil {
+		return
+	}
+	f := seg.Fragments[0]
+	vAssert("C01.stpp.sequence-number", int(f.Moof.Mfhd.SequenceNumber) == nr)
+	vAssert("C01.stpp.decode-time", int(f.Moof.Traf.Tfdt.BaseMediaDecodeTime()) == tfdt+shift)
+	vAssert("C01.stpp.ttml-shift-equals-decode-time-shift", vStppShiftMSOf(seg) == shiftMS)
+	vReach("C01.stpp.end")
+}
